@@ -553,3 +553,28 @@ package lib
 //@   invariant true
 //@ loop 2:
 //@   invariant true
+
+// ---------------- C05: the relay as a whole ----------------
+// Both directions are started on exactly the pair (client, covert) and (covert, client) with one shared WaitGroup of
+// two, Proxy waits for both before it returns ("no goroutine is left behind": each halfPipe signals the group exactly
+// once - proved on halfPipe), and the covert connection it dialled is closed on every way out.
+//@ func (p *ProxyStats) addSession()
+//@   assigns memory
+//@   trusted
+//@ func (p *ProxyStats) removeSession()
+//@   assigns memory
+//@   trusted
+//@ func Proxy(reg *DecoyRegistration, clientConn net.Conn, logger *log.Logger)
+//@   requires reg != nil && clientConn != nil && logger != nil && reg.TransportPtr != nil && *reg.TransportPtr != nil && reg.RegistrationSource != nil
+//@   requires addrFree(errConnReset) && addrFree(errConnRefused) && addrFree(errConnAborted) && addrFree(errUnreachable) && addrFree(errConnTimeout) && addrFree(errNetOp) && addrFree(io.ErrShortWrite)
+//@   atcall net.Dial after: snap covert := res0
+//@   atcall net.Dial after: snap dialErr := res1
+//@   atcall halfPipe before: assert @C05: defined(covert) && ((arg0 == clientConn && arg1 == covert) || (arg0 == covert && arg1 == clientConn)) && arg2 == &wg && arg5 == tunStats
+//@   atcall halfPipe#1 before: snap up := arg0
+//@   atcall halfPipe#2 before: assert @C05: defined(up) && up == clientConn && arg0 == covert
+//@   atcall halfPipe#2 before: snap down := arg0
+//@   atcall WaitGroup).Wait before: assert @C05: defined(up) && defined(down)
+//@   ensures @C05: defined(covert) && dialErr == nil && covert != nil ==> closed(covert)
+// ("checks structure": the preconditions of halfPipe at the two spawn sites are not obligations here - they need
+// 'a network error has a non-empty text', which is not provable; the wiring of the relay is)
+//@   checks structure
